@@ -1,8 +1,8 @@
 package stakechainworld
 
 import (
-	"math/big"
 	"crypto/ecdsa"
+	"math/big"
 
 	"verifsim/kit"
 	"verifsim/worlds/chainkit"
